@@ -415,3 +415,23 @@ Definition wf_tcpb (pkt : list N) (hl cs g : nat) : bool :=
   wf_commonb pkt hl cs g && (20 <=? tcp_hdr_len pkt cs)%nat && (hl =? cs + tcp_hdr_len pkt cs)%nat.
 Definition wf_udpb (pkt : list N) (hl cs g : nat) : bool :=
   wf_commonb pkt hl cs g && (hl =? cs + 8)%nat.
+
+(* both protocols under one name (tcp = true: TSO, false: USO) *)
+Definition segment_l4 (tcp : bool) (pkt : list N) (hl cs g : nat) : option (list (list N)) :=
+  if tcp then segment_tcp pkt hl cs g else segment_udp pkt hl cs g.
+Definition segments_ref (tcp : bool) (pkt : list N) (hl cs g : nat) : list (list N) :=
+  if tcp then segments_ref_tcp pkt hl cs g else segments_ref_udp pkt hl cs g.
+Definition wf_l4 (tcp : bool) (pkt : list N) (hl cs g : nat) : Prop :=
+  if tcp then wf_tcp pkt hl cs g else wf_udp pkt hl cs g.
+Definition l4_proto (tcp : bool) : N := if tcp then IPPROTO_TCP else IPPROTO_UDP.
+
+(* header offsets segmentation rewrites: IPv4 total length, ID, header checksum / IPv6 payload length;
+   TCP sequence number, flag byte, checksum / UDP length, checksum. Every other header byte is copied. *)
+Definition rewritten (tcp isV4 : bool) (cs k : nat) : bool :=
+  (if isV4 then ((2 <=? k) && (k <? 6))%nat || ((10 <=? k) && (k <? 12))%nat else ((4 <=? k) && (k <? 6))%nat) ||
+  (if tcp then ((cs + 4 <=? k) && (k <? cs + 8))%nat || (k =? cs + 13)%nat || ((cs + 16 <=? k) && (k <? cs + 18))%nat
+   else ((cs + 4 <=? k) && (k <? cs + 8))%nat).
+
+(* which flag bits survive on segment i of n: CWR (bit 7) on the first only, FIN (0) and PSH (3) on the last only *)
+Definition flag_kept (bit : N) (i n : nat) : bool :=
+  if bit =? 7 then (i =? 0)%nat else if (bit =? 0) || (bit =? 3) then (i =? n - 1)%nat else true.
